@@ -31,9 +31,10 @@ const (
 
 type scriptedSession struct {
 	mu       sync.Mutex
-	script   string // 'S' success, 'F' failure, 'T' no answer until the checker's timeout
+	script   string // 'S' success, 'F' failure, 'T' no answer until the checker's timeout, 'L' no answer until the next check is in flight
 	next     int
-	waiters  []chan struct{} // 'T' steps blocked in CheckHealth, oldest first
+	waiters  []chan struct{} // 'T' and 'L' steps blocked in CheckHealth whose timeout has not been reported yet, oldest first (nil channel for 'L')
+	late     chan struct{}   // the 'L' step still blocked: released when the next CheckHealth call begins
 	tokens   int             // OnTimeout notifications that found no blocked 'T' step
 	spurious int32           // number of such notifications: the checker's timer fired on a check that had answered or had not yet been asked (timing)
 	done     chan struct{}   // closed at the end of the case
@@ -43,6 +44,15 @@ func (s *scriptedSession) CheckHealth() bool {
 	s.mu.Lock()
 	i := s.next
 	s.next++
+	if s.late != nil {
+		// the previous check was given up on (timeout reported) and answers only now, while this one is in flight;
+		// give its answer a moment to reach the checker first (shapes the schedule, the oracle holds either way)
+		close(s.late)
+		s.late = nil
+		s.mu.Unlock()
+		time.Sleep(time.Millisecond)
+		s.mu.Lock()
+	}
 	if i >= len(s.script) {
 		s.mu.Unlock()
 		<-s.done // script exhausted: no further result
@@ -55,6 +65,21 @@ func (s *scriptedSession) CheckHealth() bool {
 	case 'F':
 		s.mu.Unlock()
 		return false
+	case 'L':
+		if s.tokens > 0 {
+			s.tokens--
+			s.mu.Unlock()
+			return true
+		}
+		ch := make(chan struct{})
+		s.late = ch
+		s.waiters = append(s.waiters, nil)
+		s.mu.Unlock()
+		select {
+		case <-ch:
+		case <-s.done:
+		}
+		return true // late: the checker reported this check as timed out long ago, the answer must be ignored
 	}
 	// 'T': no answer until the checker has reported the timeout of this check
 	if s.tokens > 0 {
@@ -77,7 +102,9 @@ func (s *scriptedSession) CheckHealth() bool {
 func (s *scriptedSession) OnTimeout() {
 	s.mu.Lock()
 	if len(s.waiters) > 0 {
-		close(s.waiters[0])
+		if s.waiters[0] != nil {
+			close(s.waiters[0])
+		}
 		s.waiters = s.waiters[1:]
 	} else {
 		s.tokens++
@@ -131,9 +158,9 @@ func genScript(rt *rapid.T) string {
 	if rapid.Bool().Draw(rt, "runs") {
 		// runs of equal results: crosses thresholds often
 		for sb.Len() < 30 {
-			k := rapid.SampledFrom([]byte{'S', 'F', 'F', 'S', 'T'}).Draw(rt, "kind")
+			k := rapid.SampledFrom([]byte{'S', 'F', 'F', 'S', 'T', 'L'}).Draw(rt, "kind")
 			n := rapid.IntRange(1, 6).Draw(rt, "run")
-			if k == 'T' && n > 2 {
+			if (k == 'T' || k == 'L') && n > 2 {
 				n = 2
 			}
 			for i := 0; i < n && sb.Len() < 30; i++ {
@@ -147,7 +174,7 @@ func genScript(rt *rapid.T) string {
 	}
 	n := rapid.IntRange(1, 30).Draw(rt, "len")
 	for i := 0; i < n; i++ {
-		sb.WriteByte(rapid.SampledFrom([]byte{'S', 'S', 'S', 'F', 'F', 'F', 'T'}).Draw(rt, "result"))
+		sb.WriteByte(rapid.SampledFrom([]byte{'S', 'S', 'S', 'F', 'F', 'F', 'T', 'L'}).Draw(rt, "result"))
 	}
 	return sb.String()
 }
@@ -199,7 +226,18 @@ func TestPropThresholds(t *testing.T) {
 	})
 }
 
-func runThresholdCase(t ev.TB, c *thrCase) {
+type thrHostRun struct {
+	host    types.Host
+	sess    *scriptedSession
+	mu      sync.Mutex
+	obs     []thrObs
+	extra   int
+	allDone chan struct{}
+}
+
+// one execution of a scripted case against a fresh checker and fresh addresses; stuck = the checker delivered fewer
+// results than scripted within the limit
+func execThresholdCase(t ev.TB, c *thrCase, wait, checkTimeout time.Duration) (order []*thrHostRun, stuck bool) {
 	n := atomic.AddUint64(&thrCounter, 1)
 	if n%256 == 0 {
 		metrics.ResetAll()
@@ -207,18 +245,9 @@ func runThresholdCase(t ev.TB, c *thrCase) {
 	sh, _ := ev.Shard()
 	info := cluster.NewClusterInfo(v2.Cluster{Name: "c16-thr", ClusterType: v2.SIMPLE_CLUSTER, LbType: v2.LB_RANDOM})
 
-	type hostRun struct {
-		host    types.Host
-		sess    *scriptedSession
-		mu      sync.Mutex
-		obs     []thrObs
-		extra   int
-		allDone chan struct{}
-	}
 	done := make(chan struct{})
-	runs := map[string]*hostRun{}
+	runs := map[string]*thrHostRun{}
 	var hosts []types.Host
-	var order []*hostRun
 	for i := range c.Hosts {
 		addr := fmt.Sprintf("10.%d.%d.%d:%d", 150+sh, (n>>8)&0xff, n&0xff, 3000+2*int((n>>16)&0x3fff)+i)
 		h := cluster.NewSimpleHost(v2.Host{HostConfig: v2.HostConfig{Address: addr, Hostname: fmt.Sprintf("h%d", i)}}, info)
@@ -233,7 +262,7 @@ func runThresholdCase(t ev.TB, c *thrCase) {
 		}
 		s := &scriptedSession{script: c.Hosts[i].Script, done: done}
 		sessions.Store(addr, s)
-		hr := &hostRun{host: h, sess: s, allDone: make(chan struct{})}
+		hr := &thrHostRun{host: h, sess: s, allDone: make(chan struct{})}
 		runs[addr] = hr
 		order = append(order, hr)
 		hosts = append(hosts, h)
@@ -252,7 +281,7 @@ func runThresholdCase(t ev.TB, c *thrCase) {
 			ServiceName:         "c16-thr",
 			InitialDelaySeconds: api.DurationConfig{Duration: time.Millisecond},
 		},
-		Timeout:        6 * time.Millisecond,
+		Timeout:        checkTimeout,
 		Interval:       time.Millisecond,
 		IntervalJitter: time.Nanosecond,
 	})
@@ -277,9 +306,8 @@ func runThresholdCase(t ev.TB, c *thrCase) {
 	})
 	hc.SetHealthCheckerHostSet(cluster.NewHostSet(hosts)) // starts one session checker per host
 
-	// synchronise on the callbacks, never on elapsed time; the limit below only turns a stuck rig into "inconclusive"
-	stuck := false
-	limit := time.After(60 * time.Second)
+	// synchronise on the callbacks, never on elapsed time
+	limit := time.After(wait)
 	for _, hr := range order {
 		select {
 		case <-hr.allDone:
@@ -289,8 +317,65 @@ func runThresholdCase(t ev.TB, c *thrCase) {
 	}
 	hc.Stop()
 	close(done)
+	return order, stuck
+}
+
+const thrTimeout = 6 * time.Millisecond
+
+var thrStallSeen int32
+
+// observed results of one execution differ from the scripted check results on some host
+func thrDeviation(c *thrCase, order []*thrHostRun) (msg string, where [2]int, found bool) {
+	for i, hr := range order {
+		hr.mu.Lock()
+		obs := append([]thrObs(nil), hr.obs...)
+		hr.mu.Unlock()
+		for k, o := range obs {
+			if o.IsHealthy != (c.Hosts[i].Script[k] == 'S') {
+				r := make([]bool, len(obs))
+				for j := range obs {
+					r[j] = obs[j].IsHealthy
+				}
+				return fmt.Sprintf("host %d: the session's checks ended %s but the callbacks reported %s (first difference at check %d)", i, c.Hosts[i].Script, renderResults(r), k+1), [2]int{i, k}, true
+			}
+		}
+	}
+	return "", [2]int{}, false
+}
+
+func runThresholdCase(t ev.TB, c *thrCase) {
+	// A scripted case needs at most 30 checks of <= 7 ms each (~0.2 s). One stall is a machine artefact until shown
+	// otherwise; the same script stalling on three fresh checkers in a row, each given >= 25x that time, is the
+	// checker ceasing to check (DESIGN 1.5, the rule for hangs) and is judged. Once that has been established in this
+	// process the waits are shortened, which only speeds up shrinking: the replay runs in a fresh process.
+	w1, w2 := 10*time.Second, 5*time.Second
+	if atomic.LoadInt32(&thrStallSeen) != 0 {
+		w1, w2 = 3*time.Second, 2*time.Second
+	}
+	order, stuck := execThresholdCase(t, c, w1, thrTimeout)
 	if stuck {
-		t.Fatalf("harness: health checker delivered fewer results than scripted within 60 s (inconclusive, not a verdict)")
+		stalls := 1
+		for ; stalls < 3 && stuck; stalls++ {
+			order, stuck = execThresholdCase(t, c, w2, thrTimeout)
+		}
+		if stuck {
+			atomic.StoreInt32(&thrStallSeen, 1)
+		}
+		if stuck {
+			canon, _ := json.Marshal(c)
+			ev.Case(partThr, true, canon, func() interface{} { return c }, "checker-stalled-reproducibly")
+			got := []string{}
+			for i, hr := range order {
+				hr.mu.Lock()
+				got = append(got, fmt.Sprintf("host %d: %d of %d results", i, len(hr.obs), len(hr.sess.script)))
+				hr.mu.Unlock()
+			}
+			ev.Fail(t, partThr, "healthcheck/checker-stops-delivering-results",
+				"three fresh checkers in a row stopped reporting results for the same scripted hosts (%s; 5-10 s waited each, the whole script needs ~0.2 s): a host stops being health-checked, so its health never changes again\ncase %s",
+				strings.Join(got, ", "), canon)
+			return
+		}
+		ev.Class(partThr, "checker-stall-not-reproduced(timing)")
 	}
 
 	// evidence
@@ -300,6 +385,7 @@ func runThresholdCase(t ev.TB, c *thrCase) {
 		sig, msg string
 	}
 	var first *verdict
+	timingDeviation := false
 	for i, hr := range order {
 		hr.mu.Lock()
 		obs := append([]thrObs(nil), hr.obs...)
@@ -326,15 +412,18 @@ func runThresholdCase(t ev.TB, c *thrCase) {
 			classes["timer-fired-outside-a-timeout-step(timing)"] = true
 		}
 		if deviates && timing {
-			classes["observed-results-deviate-from-script(timing)"] = true
+			timingDeviation = true
 		}
 		if deviates && !timing && first == nil {
 			// every timeout the checker reported belonged to a check the session left unanswered, so each
 			// reported result must be the result of the corresponding check
-			first = &verdict{"healthcheck/reported-results-differ-from-check-results", fmt.Sprintf("host %d: the session's checks ended %s (S success, F failure, T unanswered until timeout) but the callbacks reported %s", i, spec.Script, renderResults(results))}
+			first = &verdict{"healthcheck/reported-results-differ-from-check-results", fmt.Sprintf("host %d: the session's checks ended %s (S success, F failure, T unanswered until timeout, L unanswered until the next check is in flight) but the callbacks reported %s", i, spec.Script, renderResults(results))}
 		}
 		if strings.ContainsRune(spec.Script, 'T') {
 			classes["timeout-step"] = true
+		}
+		if strings.ContainsRune(spec.Script, 'L') {
+			classes["late-answer-during-next-check"] = true
 		}
 		if spec.PresetActive {
 			classes["preset:failed-active-hc"] = true
@@ -373,6 +462,28 @@ func runThresholdCase(t ev.TB, c *thrCase) {
 				fail("healthcheck/health-not-conjunction", "after result %d: Health()=%v with active-check failing=%v outlier=%v", k+1, o.Health, wantUnhealthy[k], spec.PresetOutlier)
 				break
 			}
+		}
+	}
+	if timingDeviation && first == nil {
+		// The checker's timer fired on a check the session had answered at once, and a result differs from the script.
+		// With a 6 ms timeout that can be the machine (the answer took longer than 6 ms to reach the checker). It is
+		// the checker if the same script, on fresh checkers with a 150 ms timeout, deviates again twice in a row, first at the same check.
+		again := 0
+		var msg string
+		var at [2]int
+		for ; again < 2; again++ {
+			o2, stuck2 := execThresholdCase(t, c, 60*time.Second, 150*time.Millisecond)
+			m, where, dev := thrDeviation(c, o2)
+			if stuck2 || !dev || (again > 0 && where != at) {
+				break
+			}
+			msg, at = m, where
+		}
+		if again == 2 {
+			classes["observed-results-deviate-from-script(reproduced-with-150ms-timeout)"] = true
+			first = &verdict{"healthcheck/reported-results-differ-from-check-results", msg + " (S success, F/f failure, T unanswered until timeout, L unanswered until the next check is in flight, then answered late); reproduced on three fresh checkers, two of them with a 150 ms check timeout against a session that answers S and F at once"}
+		} else {
+			classes["observed-results-deviate-from-script(timing)"] = true
 		}
 	}
 	cl := make([]string, 0, len(classes)+2)
